@@ -10,8 +10,9 @@ import HL.Model.Parser
       - `Reach.errors`       new errors sit on consumed tokens or on the final current token
       - `Reach.stream`       (list source) the consumed tokens are a prefix of the stream
   * `ReachL` — `Reach` over tokens none of which is a Newline (line-internal functions).
-  * `RC a tl b` — `Reach` whose consumed tokens never continue past two consecutive Newline
-    tokens except with an Indent (`nc`), `tl` bounding the number of trailing Newlines.
+  * `RC a tl b` — `Reach` whose consumed tokens never continue after a Newline token except
+    with another Newline or an Indent (`nc`); `tl = 0` says the last consumed token is not a
+    Newline.  Errors are recorded only on tokens that do not directly follow a Newline.
 -/
 namespace HL.Parser
 open HL HL.Ast
@@ -205,10 +206,10 @@ theorem ReachL.measure_le (hd : Decr E) {a b : PState σ} (h : ReachL E a b) : m
 
 /-! ### the "blank line" automaton on consumed tokens -/
 
-/-- One step: `tl` = number of Newline tokens consumed last.  After two of them only an
-    Indent may be consumed. -/
+/-- One step: `tl` = 1 when the token consumed last is a Newline, else 0.  After a Newline only
+    a Newline or an Indent may be consumed (within one iteration of the journal loop). -/
 def ncStep (tl : Nat) (t : Token) : Option Nat :=
-  if 2 ≤ tl ∧ t.ty ≠ .indent then none else some (if t.ty = .newline then tl + 1 else 0)
+  if 1 ≤ tl ∧ t.ty ≠ .indent ∧ t.ty ≠ .newline then none else some (if t.ty = .newline then 1 else 0)
 
 def nc : Nat → List Token → Option Nat
   | tl, [] => some tl
@@ -226,24 +227,14 @@ theorem nc_append (tl : Nat) (C1 C2 : List Token) :
     | none => simp
     | some tl' => simp [ih]
 
-theorem nc_noNL {tl : Nat} {C : List Token} (h : NoNL C) (h1 : tl ≤ 1) :
-    ∃ tl', nc tl C = some tl' ∧ tl' ≤ tl := by
-  cases C with
-  | nil => exact ⟨tl, rfl, Nat.le_refl _⟩
-  | cons t r =>
-    have ht : t.ty ≠ .newline := h t (by simp)
-    have hr : NoNL r := fun x hx => h x (by simp [hx])
-    have : ncStep tl t = some 0 := by
-      unfold ncStep; rw [if_neg (by omega)]; simp [ht]
+theorem nc_noNL {C : List Token} (h : NoNL C) : nc 0 C = some 0 := by
+  induction C with
+  | nil => rfl
+  | cons x xs ih =>
+    have hx : x.ty ≠ .newline := h x (by simp)
+    have : ncStep 0 x = some 0 := by unfold ncStep; simp [hx]
     simp only [nc, this]
-    clear this ht h
-    induction r with
-    | nil => exact ⟨0, rfl, Nat.zero_le _⟩
-    | cons x xs ih =>
-      have hx : x.ty ≠ .newline := hr x (by simp)
-      have : ncStep 0 x = some 0 := by unfold ncStep; simp [hx]
-      simp only [nc, this]
-      exact ih (fun y hy => hr y (by simp [hy]))
+    exact ih (fun y hy => h y (by simp [hy]))
 
 /-! ### error sites: tokens not directly preceded by a Newline -/
 
@@ -337,34 +328,36 @@ theorem okSites_prefix (L1 L2 : List Token) : ∀ t ∈ okSites L1, t ∈ okSite
   intro t ht; unfold okSites at *; rw [okSitesAux_append]; simp [ht]
 
 theorem RC.step {a b : PState σ} {tl} (h : RC E a tl b) (hne : b.current.ty ≠ .eof)
-    (h2 : 2 ≤ tl → b.current.ty = .indent) :
-    RC E a (if b.current.ty = .newline then tl + 1 else 0) (advance E b) := by
+    (h2 : 1 ≤ tl → b.current.ty = .indent ∨ b.current.ty = .newline) :
+    RC E a (if b.current.ty = .newline then 1 else 0) (advance E b) := by
   obtain ⟨C, t0, new, r0, n, l, e1, e2⟩ := h
-  have hs : ncStep t0 b.current = some (if b.current.ty = .newline then t0 + 1 else 0) := by
+  have hs : ncStep t0 b.current = some (if b.current.ty = .newline then 1 else 0) := by
     unfold ncStep
     rw [if_neg]
-    intro ⟨h3, h4⟩
-    exact h4 (h2 (by omega))
-  refine ⟨C ++ [b.current], (if b.current.ty = .newline then t0 + 1 else 0), new,
+    intro ⟨h3, h4, h5⟩
+    rcases h2 (by omega) with h | h
+    · exact h4 h
+    · exact h5 h
+  refine ⟨C ++ [b.current], (if b.current.ty = .newline then 1 else 0), new,
     .trans r0 (.adv b hne), ?_, ?_, by simpa [advance] using e1, ?_⟩
   · rw [nc_append, n]; simp [nc, hs]
-  · split <;> omega
+  · exact Nat.le_refl _
   · intro e he
     obtain ⟨t, ht, hp⟩ := e2 e he
     exact ⟨t, okSites_prefix _ _ t ht, hp⟩
 
-theorem RC.advNL {a st : PState σ} {tl} (h : RC E a tl st) (h1 : st.current.ty = .newline) (h2 : tl ≤ 1) :
-    RC E a (tl + 1) (advance E st) := by
-  have := RC.step E h (by simp [h1]) (by omega)
+theorem RC.advNL {a st : PState σ} {tl} (h : RC E a tl st) (h1 : st.current.ty = .newline) :
+    RC E a 1 (advance E st) := by
+  have := RC.step E h (by simp [h1]) (fun _ => Or.inr h1)
   simpa [h1] using this
 
 theorem RC.advIndent {a st : PState σ} {tl} (h : RC E a tl st) (h1 : st.current.ty = .indent) :
     RC E a 0 (advance E st) := by
-  have := RC.step E h (by simp [h1]) (fun _ => h1)
+  have := RC.step E h (by simp [h1]) (fun _ => Or.inl h1)
   simpa [h1] using this
 
-theorem RC.advOther {a st : PState σ} {tl} (h : RC E a tl st) (h0 : st.current.ty ≠ .eof)
-    (h1 : st.current.ty ≠ .newline) (h2 : tl ≤ 1) : RC E a 0 (advance E st) := by
+theorem RC.advOther {a st : PState σ} (h : RC E a 0 st) (h0 : st.current.ty ≠ .eof)
+    (h1 : st.current.ty ≠ .newline) : RC E a 0 (advance E st) := by
   have := RC.step E h h0 (by omega)
   simpa [h1] using this
 
@@ -398,11 +391,11 @@ theorem RC.line {a b c : PState σ} (h : RC E a 0 b) (hl : ReachL E b c) : RC E 
   have ht0 : t0 = 0 := by omega
   subst ht0
   obtain ⟨C2, r2, nn⟩ := hl
-  obtain ⟨t1, n1, l1⟩ := nc_noNL (tl := 0) nn (by omega)
+  have n1 := nc_noNL nn
   have hlC : lastNL false C = false := by
     have := nc_lastNL n; simpa using this.symm
   obtain ⟨new2, f1, f2⟩ := r2.errors E
-  refine ⟨C ++ C2, t1, new ++ new2, .trans r0 r2, by rw [nc_append, n]; simpa using n1, by omega,
+  refine ⟨C ++ C2, 0, new ++ new2, .trans r0 r2, by rw [nc_append, n]; simpa using n1, by omega,
     by rw [f1, e1, List.append_assoc], ?_⟩
   intro e he
   simp only [List.mem_append] at he
